@@ -10,7 +10,7 @@ use std::collections::BTreeSet;
 use std::sync::atomic::{AtomicU64, Ordering};
 use std::sync::{Arc, Mutex};
 
-const CALLS: [(&str, &str); 10] = [
+const CALLS: [(&str, &str); 13] = [
   ("All", r#"{A: 5, S: "abcz"}"#),
   ("Quote", r#"{A: 500, S: "xyz"}"#),
   ("All", r#"{A: 42, S: "aeiouz"}"#),
@@ -21,6 +21,10 @@ const CALLS: [(&str, &str); 10] = [
   ("Many", r#"{S: "xyz"}"#),
   ("Three", r#"{A: 5}"#),
   ("Three", r#"{A: 42}"#),
+  // invocables other than decisions, invoked by name: a knowledge model without parameters, one with a parameter, the service
+  ("Rate", r#"{}"#),
+  ("Scale", r#"{x: 3}"#),
+  ("Svc", r#"{A: 5}"#),
 ];
 
 fn ctx(text: &str) -> FeelContext {
